@@ -70,6 +70,7 @@ type handRec struct {
 	gbsFirst         *pt.TableBlindState
 	recordUnreliable bool // some call for this hand was not atomic: the harness record may lag the engine
 	phaseFrom        int64
+	beWagers         map[int]*[4]int // per game index: wager steps the backend applied (all, calls, checks, folds)
 }
 
 type blindUpd struct {
@@ -133,6 +134,7 @@ type tableMon struct {
 	errEvents           int
 	reserved            map[string]int
 	extTainted          string
+	panicsSeen          int
 	leavers             map[string]bool
 	obligedOpen         bool // since the last settlement: >= 2 seated-in players with chips and no pause condition, continuously
 	obligedPause        bool // since the last settlement: pause condition, continuously
@@ -174,6 +176,11 @@ func (m *tableMon) onCreated(t *pt.Table, pre []pt.JoinPlayer, startBreak bool) 
 func (m *tableMon) adminEvent(kind string) {
 	switch kind {
 	case "pause", "close", "release":
+		for _, fn := range m.c.Sch.LockWaiters() {
+			if strings.Contains(fn, "tableGameOpen") {
+				m.c.Probe(kind + "_while_open_trigger_waits_for_engine_lock")
+			}
+		}
 		m.lifecycleOff = "external " + kind
 		m.c08off = "external " + kind
 		m.extTainted = kind
@@ -1257,15 +1264,47 @@ func (m *tableMon) onSettled(t *pt.Table, seq int64) {
 	m.checkStats(h, t)
 }
 
+// backendWager: the backend applied a wager step of the player at game index idx to the current hand.
+func (m *tableMon) backendWager(idx int, kind string) {
+	h := m.cur
+	if h == nil || h.settled != nil {
+		return
+	}
+	if h.beWagers == nil {
+		h.beWagers = map[int]*[4]int{}
+	}
+	bw := h.beWagers[idx]
+	if bw == nil {
+		bw = &[4]int{}
+		h.beWagers[idx] = bw
+	}
+	bw[0]++
+	switch kind {
+	case "Call":
+		bw[1]++
+	case "Check":
+		bw[2]++
+	case "Fold":
+		bw[3]++
+	}
+}
+
 // C14: statistics at settlement.
 func (m *tableMon) checkStats(h *handRec, t *pt.Table) {
 	c := m.c
 	st := t.State
-	if h.recordUnreliable {
-		c.Inconc("c14_record_unreliable")
-		return
+	// The clients' calls interleaved with the engine (their returns lag it): what was accepted is then
+	// taken from the backend seam, which saw every wager step that was applied to this hand.
+	viaBackend := h.recordUnreliable
+	if viaBackend {
+		if len(st.GamePlayerIndexes) != len(h.roster) || h.leftMidHand {
+			c.Inconc("c14_record_unreliable")
+			return
+		}
+		c.Judged("C14.settlement_via_backend")
+	} else {
+		c.Judged("C14.settlement")
 	}
-	c.Judged("C14.settlement")
 	threeB := 0
 	for _, id := range h.roster {
 		var ps *pt.TablePlayerState
@@ -1279,8 +1318,13 @@ func (m *tableMon) checkStats(h *handRec, t *pt.Table) {
 		}
 		g := ps.GameStatistics
 		acts, calls, checks, folds := 0, 0, 0, 0
+		if viaBackend {
+			if bw := h.beWagers[indexOf(h.roster, id)]; bw != nil {
+				acts, calls, checks, folds = bw[0], bw[1], bw[2], bw[3]
+			}
+		}
 		for _, a := range h.actions {
-			if a.id != id || !a.ok || !isWager(a.action) {
+			if viaBackend || a.id != id || !a.ok || !isWager(a.action) {
 				continue
 			}
 			acts++
